@@ -135,12 +135,25 @@ pub fn one(ctx: &mut Ctx, plan: &Plan) -> bool {
         Dec::Err(e) => ctx.fail("own-serialisation-rejected", &line, &format!("RedeemNode::decode: {e}; prog {} wit {}", gen::hex(&pb), gen::hex(&wb))),
         Dec::Panic(p) => ctx.fail("panic-decode", &line, &p),
     }
-    // commitment time
+    // commitment time: disconnect nodes are holes there (a branch attached at construction time
+    // would constrain the types of a program it is not part of: outside C01's quantifier)
+    let mut cplan = plan.clone();
+    for n in cplan.nodes.iter_mut() {
+        if let PNode::Disconnect(a, Some(_)) = n {
+            *n = PNode::Disconnect(*a, None);
+        }
+    }
+    let cplan = cplan.compacted();
+    let plan = &cplan;
+    let tables = progs::jet_types(plan);
     if commit_time_ok(plan) {
         if let Ok(Ok(commit)) = catch(|| gen::commit_of_plan(plan, None, true)) {
             let cline = format!("enc C {}{}", plan.text(), tables);
             let cb = commit.to_vec_without_witness();
             ctx.op(&cline, &format!("prog={}", gen::hex(&cb)));
+            for k in plan.kinds() {
+                ctx.count(&format!("reach:commit-{k}"));
+            }
             match catch(|| CommitNode::decode::<_, simplicity::jet::Elements>(BitIter::from(&cb[..]))) {
                 Ok(Ok(c2)) => {
                     ctx.count("reach:commit-roundtrip");
@@ -148,16 +161,15 @@ pub fn one(ctx: &mut Ctx, plan: &Plan) -> bool {
                         ctx.fail("commit-roundtrip-differs", &cline, "root cmr/arrow/ihr changes");
                     }
                     let cb2 = c2.to_vec_without_witness();
-                    // the commit-time decoder drops an attached disconnect branch: re-encoding is
-                    // claimed only without one
-                    let has_branch = plan.nodes.iter().any(|n| matches!(n, PNode::Disconnect(_, Some(_))));
-                    if !has_branch && cb2 != cb {
+                    if cb2 != cb {
                         ctx.fail("commit-reencoding-differs", &cline, &format!("{} re-encodes to {}", gen::hex(&cb), gen::hex(&cb2)));
                     }
                 }
                 Ok(Err(e)) => ctx.fail("own-commit-serialisation-rejected", &cline, &format!("CommitNode::decode: {e}; prog {}", gen::hex(&cb))),
                 Err(p) => ctx.fail("panic-commit-decode", &cline, &p),
             }
+        } else {
+            ctx.count("commit-time-skipped:not-a-program-without-branches");
         }
     } else {
         ctx.count("commit-time-skipped:shared-unique-subexpression");
